@@ -242,6 +242,8 @@ type c15Net struct {
 	srvIP netip.Addr
 	state map[[2]int][2]uint64 // (dscp, path) -> last (rx, tx) reported
 	bad   map[int]bool         // paths whose server answers with an unusable (stratum 0) response this round
+	bad1  map[int]bool         // paths whose server answers a client's first request of this round with an unusable response, later ones well
+	nreq  map[[2]int]int       // (dscp, path) -> requests seen this round
 	basic bool                 // servers without interleaved support: every answer is a basic-mode response
 }
 
@@ -265,7 +267,8 @@ func (nw *c15Net) handler(pi int) func(s *peer.NTPServer, dg []byte, from netip.
 		now := time.Now()
 		fl := peer.NTPFields{LVM: 0x24, Stratum: 1, Precision: -30, Origin: f.Transmit, Receive: peer.ToNTP64(rx.Add(th)), Transmit: peer.ToNTP64(now.Add(th))}
 		nw.mu.Lock()
-		if nw.bad[pi] {
+		nw.nreq[[2]int{dscp, pi}]++
+		if nw.bad[pi] || nw.bad1[pi] && nw.nreq[[2]int{dscp, pi}] == 1 {
 			fl.Stratum = 0
 		}
 		nw.mu.Unlock()
@@ -296,7 +299,7 @@ func c15Rounds(r *ev.Run) {
 	log := slog.New(slog.DiscardHandler)
 	srvIP, cliIP := blockIP(r, 15, 1), blockIP(r, 15, 2)
 	const nPaths = 12
-	nw := &c15Net{srvIP: srvIP, state: map[[2]int][2]uint64{}}
+	nw := &c15Net{srvIP: srvIP, state: map[[2]int][2]uint64{}, nreq: map[[2]int]int{}}
 	for p := 0; p < nPaths; p++ {
 		nw.theta = append(nw.theta, time.Duration(p+1)*100*time.Second)
 		s, err := peer.NewNTPServer(netip.AddrPortFrom(srvIP, 0), nw.handler(p))
@@ -398,7 +401,24 @@ func c15Rounds(r *ev.Run) {
 					}
 				}
 			}
-			badNow := nw.bad
+			nw.bad1, nw.nreq = map[int]bool{}, map[[2]int]int{}
+			if len(nw.bad) == 0 && rng.IntN(4) == 0 { // a first attempt that fails at once, a second one that succeeds
+				for _, p := range offered {
+					if rng.IntN(2) == 0 {
+						nw.bad1[p] = true
+					}
+				}
+			}
+			badNow := map[int]bool{}
+			for p := range nw.bad {
+				badNow[p] = true
+			}
+			for p := range nw.bad1 {
+				if !interleavedCfg { // a client with a single attempt per round has nothing after the failed one
+					badNow[p] = true
+				}
+			}
+			badFirst := len(nw.bad1) > 0
 			nw.mu.Unlock()
 			resetsBefore := make([]int, nC)
 			for i, s := range spies {
@@ -545,6 +565,9 @@ func c15Rounds(r *ev.Run) {
 				}
 				if len(th) < len(c2p) {
 					r.Class("round:some-participants-failed")
+				}
+				if badFirst && interleavedCfg {
+					r.Class("round:first attempt of some clients failed at once, a later one succeeded")
 				}
 				if len(th) == 0 {
 					r.Violation("MeasureClockOffsetSCION|wrong-value:success although every participating client's measurement failed", id, w)
